@@ -40,6 +40,10 @@ POOL = [
     ("a", '"a"'), ("", '""'), (None, "null"), (bytes([1]), "B[1]"), (Vec([1]), "V(1)"), (Vec([1.0]), "V(1.0)"),
     ([1], "[1]"), ([1.0], "[1.0]"), ([Fraction(1)], "[3/3]"), ([[1], Fraction(1)], "[[1], 2/2]"), ([[1.0], 1], "[[1.0], 1]"),
     (NDict([(1, 2)]), "{1: 2}"), (NDict([(1.0, 2)]), "{1.0: 2}"), (NDict([(1, 2.0)]), "{1: 2.0}"),
+    # negative values in both integer representations and at other levels; a dyadic rational with a 53-bit numerator and its float;
+    # a complex number whose real part is the double nearest to an integer it does not equal
+    (-8, "(0-8)"), (-8, "(2^70 - 2^70 - 8)"), (-8.0, "(0.0-8.0)"), (Fraction(-8), "((0-16)/2)"), (-1, "(0-1)"), (-1, "(2^70 - 2^70 - 1)"),
+    (0.3, "0.3"), (Fraction(0.3), "(5404319552844595/18014398509481984)"), (complex(2.0 ** 53, 0), "(2.0^53+0i)"), (complex(1 / 3, 0), "(1.0/3.0+0i)"),
     # NaN equals itself as a key also inside vectors and lists
     (Vec([math.nan, 1]), "V(0.0/0.0, 1)"), (Vec([-math.nan, 1.0]), "V(-(0.0/0.0), 1.0)"), ([math.nan], "[0.0/0.0]"), ([Vec([math.nan])], "[V(0.0/0.0)]"),
     # == on dicts ignores the default value, so these address the same entries as the ones above
